@@ -162,4 +162,1417 @@ theorem noDup_unique (m : Constraints) (h : noDupAttr m = true) (c : Constraint)
       simp only [hne, decide_false]
       exact ih h.2 hc'
 
+/-! ## port ranges -/
+
+theorem memR_iff (p : Nat) (r : Range) : memR p r = true ↔ r.1 ≤ p ∧ p ≤ r.2 := by
+  simp [memR]
+
+theorem mem_cons (p : Nat) (r : Range) (rs : Ranges) : mem p (r :: rs) = (memR p r || mem p rs) := by
+  simp [mem]
+
+theorem mem_nil (p : Nat) : mem p [] = false := rfl
+
+theorem mem_append (p : Nat) (xs ys : Ranges) : mem p (xs ++ ys) = (mem p xs || mem p ys) := by
+  simp [mem]
+
+theorem mem_insertR (p : Nat) (r : Range) (rs : Ranges) : mem p (insertR r rs) = (memR p r || mem p rs) := by
+  induction rs with
+  | nil => simp [insertR, mem]
+  | cons x xs ih =>
+    simp only [insertR]
+    split
+    · rw [mem_cons, ih, mem_cons]; cases memR p x <;> cases memR p r <;> simp
+    · simp [mem_cons]
+
+theorem mem_sortR (p : Nat) (rs : Ranges) : mem p (sortR rs) = mem p rs := by
+  induction rs with
+  | nil => rfl
+  | cons r rs ih => simp [sortR, mem_insertR, ih, mem_cons]
+
+theorem valid_cons (r : Range) (rs : Ranges) : Valid (r :: rs) = (decide (r.1 ≤ r.2) && Valid rs) := by
+  simp [Valid]
+
+theorem valid_insertR (r : Range) (rs : Ranges) : Valid (insertR r rs) = (decide (r.1 ≤ r.2) && Valid rs) := by
+  induction rs with
+  | nil => simp [insertR, Valid]
+  | cons x xs ih =>
+    simp only [insertR]
+    split
+    · rw [valid_cons, ih, valid_cons]
+      cases decide (x.1 ≤ x.2) <;> cases decide (r.1 ≤ r.2) <;> simp
+    · simp [valid_cons]
+
+theorem valid_sortR (rs : Ranges) : Valid (sortR rs) = Valid rs := by
+  induction rs with
+  | nil => rfl
+  | cons r rs ih => simp [sortR, valid_insertR, ih, valid_cons]
+
+/-- sorted by begin -/
+def SortedB : Ranges → Bool
+  | [] => true
+  | [_] => true
+  | r :: s :: rest => decide (r.1 ≤ s.1) && SortedB (s :: rest)
+
+/-- every begin in the list is ≥ lo -/
+def lbAll (lo : Nat) (rs : Ranges) : Bool := rs.all (fun r => decide (lo ≤ r.1))
+
+theorem sortedB_cons (r : Range) (rs : Ranges) :
+    SortedB (r :: rs) = true ↔ (lbAll r.1 rs = true ∧ SortedB rs = true) := by
+  induction rs generalizing r with
+  | nil => simp [SortedB, lbAll]
+  | cons s rest ih =>
+    simp only [SortedB, Bool.and_eq_true, decide_eq_true_eq, lbAll, List.all_cons]
+    rw [ih s]
+    constructor
+    · rintro ⟨h1, h2, h3⟩
+      refine ⟨⟨h1, ?_⟩, h2, h3⟩
+      simp only [lbAll, List.all_eq_true, decide_eq_true_eq] at h2 ⊢
+      intro x hx; exact Nat.le_trans h1 (h2 x hx)
+    · rintro ⟨⟨h1, _⟩, h2, h3⟩
+      exact ⟨h1, h2, h3⟩
+
+theorem lbAll_insertR (lo : Nat) (r : Range) (rs : Ranges) :
+    lbAll lo (insertR r rs) = (decide (lo ≤ r.1) && lbAll lo rs) := by
+  induction rs with
+  | nil => simp [insertR, lbAll]
+  | cons x xs ih =>
+    simp only [insertR]
+    split
+    · unfold lbAll at ih ⊢
+      simp only [List.all_cons, ih]
+      cases decide (lo ≤ x.1) <;> cases decide (lo ≤ r.1) <;> simp
+    · simp [lbAll]
+
+theorem sortedB_insertR (r : Range) (rs : Ranges) (h : SortedB rs = true) : SortedB (insertR r rs) = true := by
+  induction rs with
+  | nil => simp [insertR, SortedB]
+  | cons x xs ih =>
+    rw [sortedB_cons] at h
+    simp only [insertR]
+    split
+    · rename_i hl
+      rw [sortedB_cons, lbAll_insertR]
+      refine ⟨?_, ih h.2⟩
+      simp only [Bool.and_eq_true, decide_eq_true_eq]
+      refine ⟨?_, h.1⟩
+      simp only [lessR, Bool.or_eq_true, Bool.and_eq_true, decide_eq_true_eq] at hl
+      omega
+    · rename_i hl
+      rw [sortedB_cons]
+      refine ⟨?_, (sortedB_cons x xs).2 h⟩
+      simp only [lessR, Bool.or_eq_true, Bool.and_eq_true, decide_eq_true_eq] at hl
+      have hrx : r.1 ≤ x.1 := by omega
+      simp only [lbAll, List.all_cons, Bool.and_eq_true, decide_eq_true_eq]
+      refine ⟨hrx, ?_⟩
+      have := h.1
+      simp only [lbAll, List.all_eq_true, decide_eq_true_eq] at this ⊢
+      intro y hy; exact Nat.le_trans hrx (this y hy)
+
+theorem sortedB_sortR (rs : Ranges) : SortedB (sortR rs) = true := by
+  induction rs with
+  | nil => rfl
+  | cons r rs ih => exact sortedB_insertR r _ ih
+
+theorem canonFrom_mono {lo lo' : Nat} (rs : Ranges) (h : CanonFrom lo rs = true) (hl : lo' ≤ lo) :
+    CanonFrom lo' rs = true := by
+  cases rs with
+  | nil => rfl
+  | cons r rs =>
+    simp only [CanonFrom, Bool.and_eq_true, decide_eq_true_eq] at h ⊢
+    exact ⟨⟨by omega, h.1.2⟩, h.2⟩
+
+theorem canonFrom_valid {lo : Nat} (rs : Ranges) (h : CanonFrom lo rs = true) : Valid rs = true := by
+  induction rs generalizing lo with
+  | nil => rfl
+  | cons r rs ih =>
+    simp only [CanonFrom, Bool.and_eq_true, decide_eq_true_eq] at h
+    rw [valid_cons]; simp [h.1.2, ih h.2]
+
+/-- Squash on a begin-sorted list of valid ranges: canonical, same ports. -/
+theorem squashAux_spec (cur : Range) (rest : Ranges)
+    (hv : cur.1 ≤ cur.2) (hvr : Valid rest = true) (hs : SortedB (cur :: rest) = true) :
+    CanonFrom cur.1 (squashAux cur rest) = true ∧
+    ∀ p, mem p (squashAux cur rest) = (memR p cur || mem p rest) := by
+  induction rest generalizing cur with
+  | nil => simp [squashAux, CanonFrom, hv, mem]
+  | cons r rest ih =>
+    rw [valid_cons, Bool.and_eq_true, decide_eq_true_eq] at hvr
+    have hs' := (sortedB_cons cur (r :: rest)).1 hs
+    have hcr : cur.1 ≤ r.1 := by
+      have := hs'.1; simp only [lbAll, List.all_cons, Bool.and_eq_true, decide_eq_true_eq] at this; exact this.1
+    have hsr := (sortedB_cons r rest).1 hs'.2
+    simp only [squashAux]
+    split
+    · rename_i hgap
+      obtain ⟨c1, m1⟩ := ih r hvr.1 hvr.2 hs'.2
+      refine ⟨?_, ?_⟩
+      · simp only [CanonFrom, Bool.and_eq_true, decide_eq_true_eq]
+        exact ⟨⟨Nat.le_refl _, hv⟩, canonFrom_mono _ c1 (by omega)⟩
+      · intro p; rw [mem_cons, m1, mem_cons]
+    · rename_i hgap
+      split
+      · rename_i hle
+        have hsorted : SortedB ((cur.1, r.2) :: rest) = true := by
+          rw [sortedB_cons]
+          refine ⟨?_, hsr.2⟩
+          have := hsr.1
+          simp only [lbAll, List.all_eq_true, decide_eq_true_eq] at this ⊢
+          intro y hy; exact Nat.le_trans hcr (this y hy)
+        obtain ⟨c1, m1⟩ := ih (cur.1, r.2) (by simp; omega) hvr.2 hsorted
+        refine ⟨c1, ?_⟩
+        intro p; rw [m1, mem_cons]
+        have : memR p (cur.1, r.2) = (memR p cur || memR p r) := by
+          rw [Bool.eq_iff_iff]; simp only [Bool.or_eq_true, memR_iff]; omega
+        rw [this, Bool.or_assoc]
+      · rename_i hnle
+        have hsorted : SortedB (cur :: rest) = true := by
+          rw [sortedB_cons]
+          refine ⟨?_, hsr.2⟩
+          have := hsr.1
+          simp only [lbAll, List.all_eq_true, decide_eq_true_eq] at this ⊢
+          intro y hy; exact Nat.le_trans hcr (this y hy)
+        obtain ⟨c1, m1⟩ := ih cur hv hvr.2 hsorted
+        refine ⟨c1, ?_⟩
+        intro p; rw [m1, mem_cons]
+        have : (memR p cur || memR p r) = memR p cur := by
+          rw [Bool.eq_iff_iff]; simp only [Bool.or_eq_true, memR_iff]; omega
+        rw [← Bool.or_assoc, this]
+
+theorem normalize_spec (rs : Ranges) (hv : Valid rs = true) :
+    Canonical (normalize rs) = true ∧ ∀ p, mem p (normalize rs) = mem p rs := by
+  unfold normalize Canonical
+  have hv' : Valid (sortR rs) = true := by rw [valid_sortR]; exact hv
+  have hs := sortedB_sortR rs
+  have hm := fun p => mem_sortR p rs
+  generalize sortR rs = xs at hv' hs hm
+  cases xs with
+  | nil => exact ⟨rfl, fun p => (hm p)⟩
+  | cons r rest =>
+    rw [valid_cons, Bool.and_eq_true, decide_eq_true_eq] at hv'
+    obtain ⟨c, m⟩ := squashAux_spec r rest hv'.1 hv'.2 hs
+    refine ⟨canonFrom_mono _ c (Nat.zero_le _), ?_⟩
+    intro p
+    simp only [squash]
+    rw [m, ← mem_cons, hm]
+
+
+/-! ### canonical lists are fixed points of Sort and Squash -/
+
+theorem squashAux_canon {lo : Nat} (r : Range) (rs : Ranges) (h : CanonFrom lo (r :: rs) = true) :
+    squashAux r rs = r :: rs := by
+  induction rs generalizing r lo with
+  | nil => rfl
+  | cons s rest ih =>
+    simp only [CanonFrom, Bool.and_eq_true, decide_eq_true_eq] at h
+    have hgap : 1 + r.2 < s.1 := by omega
+    simp only [squashAux, hgap, if_true]
+    rw [ih (lo := r.2 + 2) s]
+    simp only [CanonFrom, Bool.and_eq_true, decide_eq_true_eq]
+    exact h.2
+
+theorem squash_canon {lo : Nat} (rs : Ranges) (h : CanonFrom lo rs = true) : squash rs = rs := by
+  cases rs with
+  | nil => rfl
+  | cons r rs => exact squashAux_canon r rs h
+
+theorem sortR_canon {lo : Nat} (rs : Ranges) (h : CanonFrom lo rs = true) : sortR rs = rs := by
+  induction rs generalizing lo with
+  | nil => rfl
+  | cons r rs ih =>
+    simp only [CanonFrom, Bool.and_eq_true, decide_eq_true_eq] at h
+    simp only [sortR]
+    rw [ih h.2]
+    cases rs with
+    | nil => rfl
+    | cons x xs =>
+      have h2 := h.2
+      simp only [CanonFrom, Bool.and_eq_true, decide_eq_true_eq] at h2
+      have : lessR x r = false := by
+        simp only [lessR, Bool.or_eq_false_iff, Bool.and_eq_false_iff, decide_eq_false_iff_not]
+        omega
+      simp [insertR, this]
+
+theorem normalize_canon (rs : Ranges) (h : Canonical rs = true) : normalize rs = rs := by
+  unfold normalize; unfold Canonical at h
+  rw [sortR_canon rs h, squash_canon rs h]
+
+/-! ### Remove -/
+
+theorem bool_help (a b c x : Bool) (h : x = (a && !c)) : (x || (b && !c)) = ((a || b) && !c) := by
+  subst h; cases a <;> cases b <;> cases c <;> rfl
+
+theorem bool_help0 (a b c : Bool) (h : (a && !c) = false) : (b && !c) = ((a || b) && !c) := by
+  cases a <;> cases b <;> cases c <;> simp_all
+
+theorem mem_removeCore (p : Nat) (rem : Range) (rs : Ranges) (hr : rem.1 ≤ rem.2) :
+    mem p (removeCore rem rs) = (mem p rs && !memR p rem) := by
+  induction rs with
+  | nil => rfl
+  | cons r rs ih =>
+    simp only [removeCore]
+    split
+    · rename_i h
+      rw [ih, mem_cons]
+      apply bool_help0
+      rw [Bool.eq_false_iff]
+      simp only [ne_eq, Bool.and_eq_true, Bool.not_eq_true', memR, Bool.and_eq_false_iff, decide_eq_true_eq,
+        decide_eq_false_iff_not]
+      omega
+    · split
+      · rename_i h1 h2
+        rw [mem_cons, mem_cons, ih, mem_cons, ← Bool.or_assoc]
+        apply bool_help
+        rw [Bool.eq_iff_iff]
+        simp only [Bool.or_eq_true, Bool.and_eq_true, Bool.not_eq_true', memR, Bool.and_eq_false_iff,
+          decide_eq_true_eq, decide_eq_false_iff_not]
+        omega
+      · split
+        · rename_i h1 h2 h3
+          rw [mem_cons, ih, mem_cons]
+          apply bool_help
+          rw [Bool.eq_iff_iff]
+          simp only [Bool.and_eq_true, Bool.not_eq_true', memR, Bool.and_eq_false_iff,
+            decide_eq_true_eq, decide_eq_false_iff_not]
+          omega
+        · split
+          · rename_i h1 h2 h3 h4
+            rw [mem_cons, ih, mem_cons]
+            apply bool_help
+            rw [Bool.eq_iff_iff]
+            simp only [Bool.and_eq_true, Bool.not_eq_true', memR, Bool.and_eq_false_iff,
+              decide_eq_true_eq, decide_eq_false_iff_not]
+            omega
+          · rename_i h1 h2 h3 h4
+            rw [mem_cons, ih, mem_cons]
+            apply bool_help
+            rw [Bool.eq_iff_iff]
+            simp only [Bool.and_eq_true, Bool.not_eq_true', memR, Bool.and_eq_false_iff,
+              decide_eq_true_eq, decide_eq_false_iff_not]
+            omega
+
+theorem canonFrom_removeCore {lo : Nat} (rem : Range) (rs : Ranges) (hr : rem.1 ≤ rem.2)
+    (h : CanonFrom lo rs = true) :
+    CanonFrom lo (removeCore rem rs) = true := by
+  induction rs generalizing lo with
+  | nil => rfl
+  | cons r rs ih =>
+    simp only [CanonFrom, Bool.and_eq_true, decide_eq_true_eq] at h
+    have ih' := ih h.2
+    simp only [removeCore]
+    split
+    · exact canonFrom_mono _ ih' (by omega)
+    · split
+      · rename_i h1 h2
+        simp only [CanonFrom, Bool.and_eq_true, decide_eq_true_eq]
+        exact ⟨⟨h.1.1, by omega⟩, ⟨by omega, by omega⟩, ih'⟩
+      · split
+        · simp only [CanonFrom, Bool.and_eq_true, decide_eq_true_eq]
+          exact ⟨h.1, ih'⟩
+        · split
+          · rename_i h1 h2 h3 h4
+            simp only [CanonFrom, Bool.and_eq_true, decide_eq_true_eq]
+            exact ⟨⟨by omega, by omega⟩, ih'⟩
+          · rename_i h1 h2 h3 h4
+            simp only [CanonFrom, Bool.and_eq_true, decide_eq_true_eq]
+            exact ⟨⟨by omega, by omega⟩, canonFrom_mono _ ih' (by omega)⟩
+
+theorem remove_spec (rs : Ranges) (rem : Range) (hr : rem.1 ≤ rem.2) (h : Canonical rs = true) :
+    Canonical (remove rs rem) = true ∧ ∀ p, mem p (remove rs rem) = (mem p rs && !memR p rem) := by
+  unfold remove
+  have hc := canonFrom_removeCore rem rs hr h
+  rw [squash_canon _ hc]
+  exact ⟨hc, fun p => mem_removeCore p rem rs hr⟩
+
+theorem canon_head_mem {lo : Nat} (r : Range) (rs : Ranges) (h : CanonFrom lo (r :: rs) = true) :
+    mem r.1 (r :: rs) = true := by
+  simp only [CanonFrom, Bool.and_eq_true, decide_eq_true_eq] at h
+  rw [mem_cons]
+  have : memR r.1 r = true := by rw [memR_iff]; omega
+  simp [this]
+
+/-! ### sizes -/
+
+theorem size_removeCore_le (rem : Range) (rs : Ranges) (hr : rem.1 ≤ rem.2 + 1) :
+    size (removeCore rem rs) ≤ size rs := by
+  induction rs with
+  | nil => exact Nat.le_refl _
+  | cons r rs ih =>
+    simp only [removeCore]
+    split
+    · simp only [size]; omega
+    · split
+      · simp only [size]; omega
+      · split
+        · simp only [size]; omega
+        · split <;> (simp only [size]; omega)
+
+/-! ## drawing ports -/
+
+theorem canonical_valid (rs : Ranges) (h : Canonical rs = true) : Valid rs = true := canonFrom_valid rs h
+
+theorem short_valid_canonical (ps : Ranges) (hl : ¬ 1 < ps.length) (hv : Valid ps = true) : Canonical ps = true := by
+  match ps, hl, hv with
+  | [], _, _ => rfl
+  | [r], _, hv =>
+    rw [valid_cons, Bool.and_eq_true, decide_eq_true_eq] at hv
+    simp [Canonical, CanonFrom, hv.1]
+  | _ :: _ :: _, hl, _ => simp at hl
+
+theorem subtractPort_spec (ps : Ranges) (p : Nat) (hv : Valid ps = true) :
+    OValid (subtractPort ps p) = true ∧
+    (∀ q, omem q (subtractPort ps p) = (mem q ps && !(q == p))) ∧
+    osize (subtractPort ps p) ≤ size (normalize ps) := by
+  obtain ⟨hcN, hmN⟩ := normalize_spec ps hv
+  -- the list the subtraction starts from
+  have ha : ∃ a, (if 1 < ps.length then normalize ps else ps) = a ∧ Canonical a = true ∧
+      (∀ q, mem q a = mem q ps) ∧ size a = size (normalize ps) := by
+    by_cases hl : 1 < ps.length
+    · exact ⟨normalize ps, by simp [hl], hcN, hmN, rfl⟩
+    · have hc := short_valid_canonical ps hl hv
+      exact ⟨ps, by simp [hl], hc, fun _ => rfl, by rw [normalize_canon ps hc]⟩
+  obtain ⟨a, hae, hca, hma, hsa⟩ := ha
+  obtain ⟨hcr, hmr⟩ := remove_spec a (p, p) (Nat.le_refl _) hca
+  have hsz : size (remove a (p, p)) ≤ size a := by
+    unfold remove
+    rw [squash_canon _ (canonFrom_removeCore (p, p) a (Nat.le_refl _) hca)]
+    exact size_removeCore_le (p, p) a (by simp)
+  have hmem : ∀ q, mem q (remove a (p, p)) = (mem q ps && !(q == p)) := by
+    intro q
+    rw [hmr, hma]
+    congr 1
+    rw [Bool.eq_iff_iff]
+    simp only [Bool.not_eq_true', memR, Bool.and_eq_false_iff, decide_eq_false_iff_not, beq_eq_false_iff_ne, ne_eq]
+    omega
+  unfold subtractPort
+  simp only [hae]
+  cases hrem : remove a (p, p) with
+  | nil =>
+    simp only [List.isEmpty_nil, if_true]
+    refine ⟨rfl, ?_, Nat.zero_le _⟩
+    intro q
+    have := hmem q
+    rw [hrem] at this
+    simpa [omem, mem] using this
+  | cons x xs =>
+    simp only [List.isEmpty_cons, Bool.false_eq_true, if_false]
+    rw [← hrem]
+    refine ⟨canonical_valid _ hcr, fun q => hmem q, ?_⟩
+    simp only [osize]
+    rw [normalize_canon _ hcr, ← hsa]
+    exact hsz
+
+theorem drawPort_spec (below : Nat) (ports : Option Ranges) (hv : OValid ports = true)
+    (p : Nat) (rest : Option Ranges) (h : drawPort below ports = .ok p rest) :
+    omem p ports = true ∧ below < p ∧ OValid rest = true ∧
+    (∀ q, omem q rest = (omem q ports && !(q == p))) ∧ osize rest ≤ osize ports := by
+  cases ports with
+  | none => simp [drawPort] at h
+  | some ps =>
+    simp only [OValid] at hv
+    obtain ⟨hcN, hmN⟩ := normalize_spec ps hv
+    obtain ⟨hcr, hmr⟩ := remove_spec (normalize ps) (0, below) (Nat.zero_le _) hcN
+    simp only [drawPort] at h
+    cases hrem : remove (normalize ps) (0, below) with
+    | nil => rw [hrem] at h; cases h
+    | cons r tl =>
+      rw [hrem] at h
+      injection h with hp hrest
+      subst hp hrest
+      rw [hrem] at hcr hmr
+      have hhead := canon_head_mem r tl hcr
+      rw [hmr, hmN] at hhead
+      simp only [Bool.and_eq_true, Bool.not_eq_true', memR, Bool.and_eq_false_iff, decide_eq_false_iff_not] at hhead
+      obtain ⟨s1, s2, s3⟩ := subtractPort_spec ps r.1 hv
+      exact ⟨hhead.1, by omega, s1, s2, s3⟩
+
+/-- `a` is what is left of `b` after some draws -/
+def Sub (a b : Option Ranges) : Prop :=
+  OValid a = true ∧ (∀ q, omem q a = true → omem q b = true) ∧ osize a ≤ osize b ∧ (a.isSome = true → b.isSome = true)
+
+theorem Sub.refl (a : Option Ranges) (h : OValid a = true) : Sub a a := ⟨h, fun _ h => h, Nat.le_refl _, id⟩
+
+theorem Sub.trans {a b c : Option Ranges} (h1 : Sub a b) (h2 : Sub b c) : Sub a c :=
+  ⟨h1.1, fun q h => h2.2.1 q (h1.2.1 q h), Nat.le_trans h1.2.2.1 h2.2.2.1, fun h => h2.2.2.2 (h1.2.2.2 h)⟩
+
+theorem drawPort_sub (below : Nat) (ports : Option Ranges) (hv : OValid ports = true)
+    (p : Nat) (rest : Option Ranges) (h : drawPort below ports = .ok p rest) : Sub rest ports := by
+  obtain ⟨_, _, h3, h4, h5⟩ := drawPort_spec below ports hv p rest h
+  refine ⟨h3, ?_, h5, ?_⟩
+  · intro q hq; rw [h4] at hq; simp only [Bool.and_eq_true] at hq; exact hq.1
+  · intro _
+    cases ports with
+    | none => simp [drawPort] at h
+    | some _ => rfl
+
+theorem tcpCount_cons_false (l : List Bool) : tcpCount (false :: l) = tcpCount l := by simp [tcpCount]
+theorem tcpCount_cons_true (l : List Bool) : tcpCount (true :: l) = tcpCount l + 1 := by simp [tcpCount]
+
+theorem drawDyn_spec (inb : List Bool) (ports : Option Ranges) (hv : OValid ports = true)
+    (ps : List Nat) (rest : Option Ranges) (h : drawDyn inb ports = .ok ps rest) :
+    (∀ p ∈ ps, omem p ports = true ∧ 9000 ≤ p) ∧ ps.Nodup ∧ OValid rest = true ∧
+    (∀ q, omem q rest = (omem q ports && !(ps.contains q))) ∧ osize rest ≤ osize ports ∧
+    ps.length = tcpCount inb := by
+  induction inb generalizing ports ps rest with
+  | nil =>
+    simp only [drawDyn] at h
+    injection h with h1 h2; subst h1 h2
+    exact ⟨by simp, List.nodup_nil, hv, by simp, Nat.le_refl _, rfl⟩
+  | cons b inb ih =>
+    cases b with
+    | false =>
+      simp only [drawDyn] at h
+      rw [tcpCount_cons_false]
+      exact ih ports hv ps rest h
+    | true =>
+      simp only [drawDyn] at h
+      cases hd : drawPort dataBelow ports with
+      | noPorts => rw [hd] at h; cases h
+      | panic => rw [hd] at h; cases h
+      | ok p ports' =>
+        rw [hd] at h
+        simp only at h
+        obtain ⟨d1, d2, d3, d4, d5⟩ := drawPort_spec dataBelow ports hv p ports' hd
+        cases hr : drawDyn inb ports' with
+        | noPorts x => rw [hr] at h; cases h
+        | panic => rw [hr] at h; cases h
+        | ok ps' ports'' =>
+          rw [hr] at h
+          simp only at h
+          injection h with h1 h2; subst h1 h2
+          obtain ⟨i1, i2, i3, i4, i5, i6⟩ := ih ports' d3 ps' ports'' hr
+          refine ⟨?_, ?_, i3, ?_, Nat.le_trans i5 d5, ?_⟩
+          · intro q hq
+            cases hq with
+            | head => exact ⟨d1, by have : dataBelow = 8999 := rfl; omega⟩
+            | tail _ hq' =>
+              obtain ⟨j1, j2⟩ := i1 q hq'
+              rw [d4] at j1; simp only [Bool.and_eq_true] at j1
+              exact ⟨j1.1, j2⟩
+          · rw [List.nodup_cons]
+            refine ⟨?_, i2⟩
+            intro hp
+            have := (i1 p hp).1
+            rw [d4] at this
+            simp at this
+          · intro q
+            rw [i4, d4, List.contains_cons]
+            cases omem q ports <;> cases (q == p) <;> cases (ps'.contains q) <;> rfl
+          · rw [tcpCount_cons_true, List.length_cons, i6]
+
+theorem drawDyn_sub (inb : List Bool) (ports : Option Ranges) (hv : OValid ports = true) :
+    match drawDyn inb ports with
+    | .ok _ r => Sub r ports
+    | .noPorts r => Sub r ports
+    | .panic => True := by
+  induction inb generalizing ports with
+  | nil => simp only [drawDyn]; exact Sub.refl _ hv
+  | cons b inb ih =>
+    cases b with
+    | false => simp only [drawDyn]; exact ih ports hv
+    | true =>
+      simp only [drawDyn]
+      cases hd : drawPort dataBelow ports with
+      | noPorts => exact Sub.refl _ hv
+      | panic => trivial
+      | ok p ports' =>
+        have hs := drawPort_sub dataBelow ports hv p ports' hd
+        have := ih ports' hs.1
+        simp only
+        cases hr : drawDyn inb ports' with
+        | noPorts x => rw [hr] at this; exact this.trans hs
+        | panic => trivial
+        | ok ps' ports'' => rw [hr] at this; exact this.trans hs
+
+/-- What a successfully made task holds. -/
+theorem makeTask_spec (w : Wants) (ports : Option Ranges) (hv : OValid ports = true)
+    (t : Task) (rest : Option Ranges) (h : makeTask w ports = .ok t rest) :
+    (∀ p ∈ t.drawn, omem p ports = true) ∧ t.drawn.Nodup ∧
+    (∀ p ∈ t.dyn, 9000 ≤ p) ∧ 30000 ≤ t.ctrl ∧ t.dyn.length = tcpCount w.inbound ∧
+    t.cpu = w.cpu ∧ t.mem = w.mem ∧ t.static = w.static ∧
+    Sub rest ports ∧ (∀ q, omem q rest = (omem q ports && !(t.drawn.contains q))) := by
+  simp only [makeTask] at h
+  cases hd : drawDyn w.inbound ports with
+  | noPorts x => rw [hd] at h; cases h
+  | panic => rw [hd] at h; cases h
+  | ok ps ports' =>
+    rw [hd] at h
+    simp only at h
+    obtain ⟨i1, i2, i3, i4, i5, i6⟩ := drawDyn_spec w.inbound ports hv ps ports' hd
+    cases hc : drawPort ctrlBelow ports' with
+    | noPorts => rw [hc] at h; cases h
+    | panic => rw [hc] at h; cases h
+    | ok c ports'' =>
+      rw [hc] at h
+      simp only at h
+      injection h with h1 h2; subst h1 h2
+      obtain ⟨d1, d2, d3, d4, d5⟩ := drawPort_spec ctrlBelow ports' i3 c ports'' hc
+      simp only [Task.drawn]
+      rw [i4] at d1
+      simp only [Bool.and_eq_true, Bool.not_eq_true'] at d1
+      refine ⟨?_, ?_, fun p hp => (i1 p hp).2, by have : ctrlBelow = 29999 := rfl; omega, i6, by simp, by simp, by simp, ?_, ?_⟩
+      · intro p hp
+        rw [List.mem_append] at hp
+        cases hp with
+        | inl hp => exact (i1 p hp).1
+        | inr hp => simp only [List.mem_singleton] at hp; subst hp; exact d1.1
+      · rw [List.nodup_append]
+        refine ⟨i2, by simp, ?_⟩
+        intro a ha b hb
+        simp only [List.mem_singleton] at hb; subst hb
+        intro hab; subst hab
+        have := d1.2
+        rw [List.contains_eq_mem, decide_eq_false_iff_not] at this
+        exact this ha
+      · exact (drawPort_sub ctrlBelow ports' i3 c ports'' hc).trans
+          (by have := drawDyn_sub w.inbound ports hv; rw [hd] at this; exact this)
+      · intro q
+        rw [d4, i4]
+        have : (ps ++ [c]).contains q = (ps.contains q || (q == c)) := by
+          simp [List.contains_eq_mem, List.mem_append, Bool.decide_or]
+          by_cases hqc : q = c <;> simp [hqc]
+        rw [this]
+        cases omem q ports <;> cases (ps.contains q) <;> cases (q == c) <;> rfl
+
+theorem makeTask_sub (w : Wants) (ports : Option Ranges) (hv : OValid ports = true) :
+    match makeTask w ports with
+    | .ok _ r => Sub r ports
+    | .early r => Sub r ports
+    | .late r => Sub r ports
+    | .panic => True := by
+  simp only [makeTask]
+  have hd := drawDyn_sub w.inbound ports hv
+  cases hdd : drawDyn w.inbound ports with
+  | noPorts x => rw [hdd] at hd; exact hd
+  | panic => trivial
+  | ok ps ports' =>
+    rw [hdd] at hd
+    simp only
+    cases hc : drawPort ctrlBelow ports' with
+    | noPorts => exact hd
+    | panic => trivial
+    | ok c ports'' => exact (drawPort_sub ctrlBelow ports' hd.1 c ports'' hc).trans hd
+
+/-! ## Resources.Satisfy -/
+
+theorem mem_iff (p : Nat) (rs : Ranges) : mem p rs = true ↔ ∃ r ∈ rs, memR p r = true := by
+  simp [mem, List.any_eq_true]
+
+theorem rangeInside_iff (ps : Ranges) (r : Range) :
+    rangeInside ps r = true ↔ ∀ p, memR p r = true → mem p ps = true := by
+  unfold rangeInside
+  rw [List.all_eq_true]
+  constructor
+  · intro h p hp
+    rw [memR_iff] at hp
+    exact h p (by rw [List.mem_range'_1]; omega)
+  · intro h p hp
+    rw [List.mem_range'_1] at hp
+    exact h p (by rw [memR_iff]; omega)
+
+/-- `Resources.Satisfy` is sound: what it accepts is covered by the resources it was given. -/
+theorem resSatisfy_covers (r : Res) (w : Wants) (hvs : Valid w.static = true) (hvp : OValid r.ports = true)
+    (h : resSatisfy r w = true) : covers r w = true := by
+  unfold resSatisfy at h
+  unfold covers
+  cases hc : r.cpu with
+  | none => rw [hc] at h; cases h
+  | some c =>
+    rw [hc] at h
+    cases hm : r.mem with
+    | none => rw [hm] at h; simp at h
+    | some m =>
+      rw [hm] at h
+      cases hp : r.ports with
+      | none => rw [hp] at h; simp at h
+      | some ps =>
+        rw [hp] at h hvp
+        simp only [OValid] at hvp
+        simp only at h ⊢
+        by_cases h1 : c < w.cpu
+        · simp [h1] at h
+        · simp only [h1, if_false] at h
+          by_cases h2 : m / 4 * 4 < w.mem
+          · simp [h2] at h
+          · simp only [h2, if_false] at h
+            by_cases h3 : compareR (normalize w.static) (normalize ps) ≠ -1
+            · simp [h3] at h
+            · simp only [h3, if_false] at h
+              by_cases h4 : size (normalize ps) - size (normalize w.static) < w.inbound.length
+              · simp [h4] at h
+              · simp only [Bool.and_eq_true, decide_eq_true_eq]
+                refine ⟨⟨⟨by omega, by omega⟩, ?_⟩, by omega⟩
+                -- static ranges inside the offer
+                have h3' : compareR (normalize w.static) (normalize ps) = -1 := Classical.not_not.mp h3
+                obtain ⟨cs, ms⟩ := normalize_spec w.static hvs
+                obtain ⟨cp, mp⟩ := normalize_spec ps hvp
+                unfold compareR at h3'
+                simp only [normalize_canon _ cs, normalize_canon _ cp] at h3'
+                by_cases he : normalize w.static = normalize ps
+                · simp [he] at h3'
+                · simp only [he, if_false] at h3'
+                  by_cases hall : (normalize w.static).all (fun a => (normalize ps).any (fun b => decide (b.1 ≤ a.1) && decide (a.2 ≤ b.2))) = true
+                  · rw [List.all_eq_true]
+                    intro s hs
+                    rw [rangeInside_iff]
+                    intro p hp
+                    have hps : mem p (normalize w.static) = true := by
+                      rw [ms, mem_iff]; exact ⟨s, hs, hp⟩
+                    rw [mem_iff] at hps
+                    obtain ⟨a, ha, hpa⟩ := hps
+                    rw [List.all_eq_true] at hall
+                    have := hall a ha
+                    rw [List.any_eq_true] at this
+                    obtain ⟨b, hb, hab⟩ := this
+                    rw [← mp, mem_iff]
+                    refine ⟨b, hb, ?_⟩
+                    simp only [Bool.and_eq_true, decide_eq_true_eq] at hab
+                    rw [memR_iff] at hpa ⊢
+                    omega
+                  · simp [hall] at h3'
+
+/-- More resources cover at least as much. -/
+theorem covers_mono (rem o : Res) (w : Wants) (hc : rem.cpu = o.cpu) (hm : rem.mem = o.mem)
+    (hs : Sub rem.ports o.ports) (h : covers rem w = true) : covers o w = true := by
+  unfold covers at h ⊢
+  rw [hc, hm] at h
+  cases hcpu : o.cpu with
+  | none => rw [hcpu] at h; simp at h
+  | some c =>
+    cases hmem : o.mem with
+    | none => rw [hcpu, hmem] at h; simp at h
+    | some m =>
+      rw [hcpu, hmem] at h
+      cases hp' : rem.ports with
+      | none => rw [hp'] at h; simp at h
+      | some ps' =>
+        rw [hp'] at h hs
+        obtain ⟨_, s2, s3, s4⟩ := hs
+        cases hp : o.ports with
+        | none => rw [hp] at s4; simp at s4
+        | some ps =>
+          rw [hp] at s2 s3
+          simp only [Bool.and_eq_true, decide_eq_true_eq] at h ⊢
+          simp only [osize] at s3
+          refine ⟨⟨h.1.1, ?_⟩, by omega⟩
+          rw [List.all_eq_true] at h ⊢
+          intro s hs
+          have := h.1.2 s hs
+          rw [rangeInside_iff] at this ⊢
+          intro p hp
+          exact s2 p (this p hp)
+
+/-! ## one offer -/
+
+/-- What holds of every launch the model makes on offer `o`. -/
+def Good (m : Mode) (o : Offer) (l : Launch) : Prop :=
+  m.sat o.attrs l.desc.cts = true ∧
+  ∃ c, l.desc.cls = some c ∧ covers o.res (c.wants m) = true ∧
+    l.task.cpu = c.cpu ∧ l.task.mem = c.mem ∧ l.task.static = (c.wants m).static ∧
+    l.task.dyn.length = tcpCount c.inbound ∧ (∀ p ∈ l.task.dyn, 9000 ≤ p) ∧ 30000 ≤ l.task.ctrl
+
+def drawnOf (ls : List Launch) : List Nat := ls.flatMap (fun l => l.task.drawn)
+
+/-- Invariant of the handling of offer `o`. -/
+structure Inv (m : Mode) (o : Offer) (s : OState) : Prop where
+  cpu : s.rem.cpu = o.res.cpu
+  mem : s.rem.mem = o.res.mem
+  sub : Sub s.rem.ports o.res.ports
+  good : ∀ l ∈ s.launches, Good m o l
+  nodup : (drawnOf s.launches).Nodup
+  fromOffer : ∀ p ∈ drawnOf s.launches, omem p o.res.ports = true ∧ omem p s.rem.ports = false
+
+/-- all static ranges that can be asked for are well-formed (begin ≤ end) -/
+def StaticValid (m : Mode) (ds : List Desc) : Prop :=
+  ∀ d ∈ ds, ∀ c, d.cls = some c → Valid (c.wants m).static = true
+
+theorem inv_setPorts (m : Mode) (o : Offer) (s : OState) (p : Option Ranges) (used : Bool)
+    (h : Inv m o s) (hs : Sub p s.rem.ports) :
+    Inv m o { s with rem := { s.rem with ports := p }, used := used } :=
+  { cpu := h.cpu, mem := h.mem, sub := hs.trans h.sub, good := h.good, nodup := h.nodup,
+    fromOffer := fun q hq => ⟨(h.fromOffer q hq).1, by
+      have h2 := (h.fromOffer q hq).2
+      cases hq' : omem q p with
+      | false => rfl
+      | true => rw [hs.2.1 q hq'] at h2; cases h2⟩ }
+
+theorem drawnOf_append (ls : List Launch) (l : Launch) : drawnOf (ls ++ [l]) = drawnOf ls ++ l.task.drawn := by
+  simp [drawnOf]
+
+/-- The step both loops share: a successful `tryPlace` keeps the invariant. -/
+theorem inv_step (m : Mode) (o : Offer) (s : OState) (d : Desc) (t : Task) (p : Option Ranges)
+    (hsv : ∀ c, d.cls = some c → Valid (c.wants m).static = true)
+    (h : Inv m o s) (ht : tryPlace m o s.rem d = .ok t p) :
+    Inv m o { s with rem := { s.rem with ports := p }, used := true, launches := s.launches ++ [⟨d, t⟩] } := by
+  unfold tryPlace at ht
+  by_cases hsat : m.sat o.attrs d.cts = true
+  · simp only [hsat, Bool.not_true, Bool.false_eq_true, if_false] at ht
+    cases hcls : d.cls with
+    | none => rw [hcls] at ht; cases ht
+    | some c =>
+      rw [hcls] at ht
+      simp only at ht
+      by_cases hres : resSatisfy s.rem (c.wants m) = true
+      · simp only [hres, Bool.not_true, Bool.false_eq_true, if_false] at ht
+        cases hmk : makeTask (c.wants m) s.rem.ports with
+        | early x => rw [hmk] at ht; cases ht
+        | late x => rw [hmk] at ht; cases ht
+        | panic => rw [hmk] at ht; cases ht
+        | ok t' p' =>
+          rw [hmk] at ht
+          simp only at ht
+          injection ht with e1 e2; subst e1 e2
+          obtain ⟨k1, k2, k3, k4, k5, k6, k7, k8, k9, k10⟩ := makeTask_spec (c.wants m) s.rem.ports h.sub.1 t' p' hmk
+          have hcov : covers o.res (c.wants m) = true :=
+            covers_mono s.rem o.res _ h.cpu h.mem h.sub
+              (resSatisfy_covers s.rem _ (hsv c hcls) h.sub.1 hres)
+          refine { cpu := h.cpu, mem := h.mem, sub := k9.trans h.sub, good := ?_, nodup := ?_, fromOffer := ?_ }
+          · intro l hl
+            rw [List.mem_append] at hl
+            cases hl with
+            | inl hl => exact h.good l hl
+            | inr hl =>
+              simp only [List.mem_singleton] at hl; subst hl
+              exact ⟨hsat, c, hcls, hcov, k6, k7, k8, k5, k3, k4⟩
+          · rw [drawnOf_append, List.nodup_append]
+            refine ⟨h.nodup, k2, ?_⟩
+            intro a ha b hb hab
+            subst hab
+            have := (h.fromOffer a ha).2
+            rw [k1 a hb] at this; cases this
+          · intro q hq
+            rw [drawnOf_append, List.mem_append] at hq
+            simp only at hq ⊢
+            cases hq with
+            | inl hq =>
+              refine ⟨(h.fromOffer q hq).1, ?_⟩
+              rw [k10, (h.fromOffer q hq).2]; rfl
+            | inr hq =>
+              refine ⟨h.sub.2.1 q (k1 q hq), ?_⟩
+              rw [k10]
+              have : t'.drawn.contains q = true := by rw [List.contains_eq_mem]; simpa using hq
+              rw [this]; simp
+      · simp [hres] at ht
+  · simp [hsat] at ht
+
+/-- `.early`/`.late` leave a sub-resource behind. -/
+theorem tryPlace_sub (m : Mode) (o : Offer) (rem : Res) (d : Desc) (hv : OValid rem.ports = true) :
+    match tryPlace m o rem d with
+    | .early p => Sub p rem.ports
+    | .late p => Sub p rem.ports
+    | _ => True := by
+  unfold tryPlace
+  by_cases hsat : m.sat o.attrs d.cts = true
+  · simp only [hsat, Bool.not_true, Bool.false_eq_true, if_false]
+    cases hcls : d.cls with
+    | none => trivial
+    | some c =>
+      simp only
+      by_cases hres : resSatisfy rem (c.wants m) = true
+      · simp only [hres, Bool.not_true, Bool.false_eq_true, if_false]
+        have := makeTask_sub (c.wants m) rem.ports hv
+        cases hmk : makeTask (c.wants m) rem.ports with
+        | early x => rw [hmk] at this; exact this
+        | late x => rw [hmk] at this; exact this
+        | panic => trivial
+        | ok t' p' => trivial
+      · simp [hres]
+  · simp [hsat]
+
+theorem prematchLoop_inv (m : Mode) (o : Offer) (ds : List Desc) (s : OState)
+    (hsv : StaticValid m ds) (h : Inv m o s) : Inv m o (prematchLoop m o s ds).1 := by
+  induction ds generalizing s with
+  | nil => exact h
+  | cons d ds ih =>
+    simp only [prematchLoop]
+    have hsub := tryPlace_sub m o s.rem d h.sub.1
+    cases ht : tryPlace m o s.rem d with
+    | skipCts => exact h
+    | skipCls => exact h
+    | skipRes => exact h
+    | early p => rw [ht] at hsub; exact inv_setPorts m o s p s.used h hsub
+    | late p => rw [ht] at hsub; exact inv_setPorts m o s p true h hsub
+    | panic =>
+      exact { cpu := h.cpu, mem := h.mem, sub := h.sub, good := h.good, nodup := h.nodup, fromOffer := h.fromOffer }
+    | ok t p =>
+      exact ih _ (fun d' hd' => hsv d' (List.mem_cons_of_mem _ hd'))
+        (inv_step m o s d t p (hsv d (List.mem_cons_self)) h ht)
+
+theorem stillLoop_inv (m : Mode) (o : Offer) (ds : List Desc) (s : OState)
+    (hsv : StaticValid m ds) (h : Inv m o s) : Inv m o (stillLoop m o s ds).1 := by
+  induction ds generalizing s with
+  | nil => exact h
+  | cons d ds ih =>
+    have hsv' : StaticValid m ds := fun d' hd' => hsv d' (List.mem_cons_of_mem _ hd')
+    simp only [stillLoop]
+    have hsub := tryPlace_sub m o s.rem d h.sub.1
+    cases ht : tryPlace m o s.rem d with
+    | skipCts => exact ih s hsv' h
+    | skipCls => exact ih s hsv' h
+    | skipRes => exact ih s hsv' h
+    | early p => rw [ht] at hsub; exact ih _ hsv' (inv_setPorts m o s p s.used h hsub)
+    | late p => rw [ht] at hsub; exact ih _ hsv' (inv_setPorts m o s p true h hsub)
+    | panic =>
+      exact { cpu := h.cpu, mem := h.mem, sub := h.sub, good := h.good, nodup := h.nodup, fromOffer := h.fromOffer }
+    | ok t p => exact ih _ hsv' (inv_step m o s d t p (hsv d (List.mem_cons_self)) h ht)
+
+theorem inv_init (m : Mode) (o : Offer) (hv : OValid o.res.ports = true) :
+    Inv m o { rem := o.res, launches := [], used := false, crashed := false } :=
+  { cpu := rfl, mem := rfl, sub := Sub.refl _ hv, good := by simp, nodup := by simp [drawnOf],
+    fromOffer := by simp [drawnOf] }
+
+/-! ### the `used` flag and what stays -/
+
+theorem prematchLoop_used (m : Mode) (o : Offer) (ds : List Desc) (s : OState)
+    (h : s.launches ≠ [] → s.used = true) :
+    (prematchLoop m o s ds).1.launches ≠ [] → (prematchLoop m o s ds).1.used = true := by
+  induction ds generalizing s with
+  | nil => exact h
+  | cons d ds ih =>
+    simp only [prematchLoop]
+    cases tryPlace m o s.rem d with
+    | skipCts => exact h
+    | skipCls => exact h
+    | skipRes => exact h
+    | early p => exact h
+    | late p => exact fun _ => rfl
+    | panic => exact h
+    | ok t p => exact ih _ (fun _ => rfl)
+
+theorem stillLoop_used (m : Mode) (o : Offer) (ds : List Desc) (s : OState)
+    (h : s.launches ≠ [] → s.used = true) :
+    (stillLoop m o s ds).1.launches ≠ [] → (stillLoop m o s ds).1.used = true := by
+  induction ds generalizing s with
+  | nil => exact h
+  | cons d ds ih =>
+    simp only [stillLoop]
+    cases tryPlace m o s.rem d with
+    | skipCts => exact ih s h
+    | skipCls => exact ih s h
+    | skipRes => exact ih s h
+    | early p => exact ih _ h
+    | late p => exact ih _ (fun _ => rfl)
+    | panic => exact h
+    | ok t p => exact ih _ (fun _ => rfl)
+
+theorem stillLoop_kept (m : Mode) (o : Offer) (ds : List Desc) (s : OState) :
+    ∀ d ∈ (stillLoop m o s ds).2, d ∈ ds := by
+  induction ds generalizing s with
+  | nil => simp [stillLoop]
+  | cons d ds ih =>
+    simp only [stillLoop]
+    cases tryPlace m o s.rem d with
+    | skipCts => intro x hx; simp only [List.mem_cons] at hx ⊢; exact hx.imp id (ih s x)
+    | skipCls => intro x hx; simp only [List.mem_cons] at hx ⊢; exact hx.imp id (ih s x)
+    | skipRes => intro x hx; simp only [List.mem_cons] at hx ⊢; exact hx.imp id (ih s x)
+    | early p => intro x hx; simp only [List.mem_cons] at hx ⊢; exact hx.imp id (ih _ x)
+    | late p => intro x hx; simp only [List.mem_cons] at hx ⊢; exact hx.imp id (ih _ x)
+    | panic => intro x hx; exact hx
+    | ok t p => intro x hx; exact List.mem_cons_of_mem _ (ih _ x hx)
+
+theorem preprocess_sub (offers : List Offer) (ds : List Desc) :
+    (∀ e ∈ (preprocess offers ds).1, e.2 ∈ ds) ∧ (∀ d ∈ (preprocess offers ds).2.1, d ∈ ds) := by
+  induction ds with
+  | nil => simp [preprocess]
+  | cons d ds ih =>
+    simp only [preprocess]
+    split
+    · rename_i hreq
+      exact ⟨fun e he => List.mem_cons_of_mem _ (ih.1 e he),
+        fun x hx => by simp only [List.mem_cons] at hx ⊢; exact hx.imp id (ih.2 x)⟩
+    · split
+      · exact ⟨fun e he => by
+          simp only [List.mem_cons] at he ⊢
+          cases he with
+          | inl h => left; rw [h]
+          | inr h => right; exact ih.1 e h,
+          fun x hx => List.mem_cons_of_mem _ (ih.2 x hx)⟩
+      · exact ⟨fun e he => List.mem_cons_of_mem _ (ih.1 e he), fun x hx => List.mem_cons_of_mem _ (ih.2 x hx)⟩
+
+/-! ## the round -/
+
+/-- What holds of the launches accepted on one offer. -/
+def PerOffer (m : Mode) (o : Offer) (ls : List Launch) : Prop :=
+  (∀ l ∈ ls, Good m o l) ∧ (drawnOf ls).Nodup ∧ ∀ p ∈ drawnOf ls, omem p o.res.ports = true
+
+structure RInv (m : Mode) (descs : List Desc) (order : List Offer) (st : RState) : Prop where
+  still : ∀ d ∈ st.still, d ∈ descs
+  accepts : ∀ a ∈ st.accepts, ∃ o ∈ order, a.oid = o.oid ∧ PerOffer m o a.launches
+  used : ∀ i ∈ st.usedIds, ∃ a ∈ st.accepts, a.oid = i
+  launched : ∀ a ∈ st.accepts, a.launches ≠ [] → a.oid ∈ st.usedIds
+
+theorem handleOffer_inv (m : Mode) (descs : List Desc) (order : List Offer) (pm : List (Nat × Desc))
+    (hpm : ∀ e ∈ pm, e.2 ∈ descs) (hsv : StaticValid m descs)
+    (st : RState) (o : Offer) (ho : o ∈ order) (hv : OValid o.res.ports = true)
+    (h : RInv m descs order st) : RInv m descs order (handleOffer m pm st o) := by
+  unfold handleOffer
+  by_cases hcr : st.crashed = true
+  · simp only [hcr, if_true]; exact h
+  · simp only [hcr, Bool.false_eq_true, if_false]
+    have hmine : StaticValid m ((pm.filter (fun e => decide (e.1 = o.oid))).map (·.2)) := by
+      intro d hd
+      simp only [List.mem_map, List.mem_filter] at hd
+      obtain ⟨e, ⟨he, _⟩, rfl⟩ := hd
+      exact hsv _ (hpm e he)
+    have i0 := inv_init m o hv
+    have i1 := prematchLoop_inv m o _ _ hmine i0
+    have u1 := prematchLoop_used m o ((pm.filter (fun e => decide (e.1 = o.oid))).map (·.2))
+      { rem := o.res, launches := [], used := false, crashed := false } (by simp)
+    generalize prematchLoop m o { rem := o.res, launches := [], used := false, crashed := false }
+      ((pm.filter (fun e => decide (e.1 = o.oid))).map (·.2)) = r1 at i1 u1
+    obtain ⟨s1, und1⟩ := r1
+    simp only at i1 u1 ⊢
+    by_cases hc1 : s1.crashed = true
+    · simp only [hc1, if_true]
+      exact { still := h.still, accepts := h.accepts, used := h.used, launched := h.launched }
+    · simp only [hc1, Bool.false_eq_true, if_false]
+      -- the second loop
+      have hstill : StaticValid m st.still.reverse := by
+        intro d hd; exact hsv d (h.still d (List.mem_reverse.mp hd))
+      have key : ∃ s2 still, (if (st.und ++ und1).isEmpty = true then
+            ((stillLoop m o s1 st.still.reverse).1, (stillLoop m o s1 st.still.reverse).2.reverse)
+          else (s1, st.still)) = (s2, still) ∧ Inv m o s2 ∧ (s2.launches ≠ [] → s2.used = true) ∧
+          (∀ d ∈ still, d ∈ descs) := by
+        by_cases hu : (st.und ++ und1).isEmpty = true
+        · refine ⟨(stillLoop m o s1 st.still.reverse).1, (stillLoop m o s1 st.still.reverse).2.reverse,
+            by simp [hu], stillLoop_inv m o _ _ hstill i1, stillLoop_used m o _ _ u1, ?_⟩
+          intro d hd
+          exact h.still d (List.mem_reverse.mp (stillLoop_kept m o _ _ d (List.mem_reverse.mp hd)))
+        · exact ⟨s1, st.still, by simp [hu], i1, u1, h.still⟩
+      obtain ⟨s2, still, hk, i2, u2, hst⟩ := key
+      have hk' : (if (st.und ++ und1).isEmpty = true then
+            (match stillLoop m o s1 st.still.reverse with | (s2, keptRev) => (s2, keptRev.reverse))
+          else (s1, st.still)) = (s2, still) := by
+        rw [← hk]
+      simp only [hk']
+      by_cases hc2 : s2.crashed = true
+      · simp only [hc2, if_true]
+        exact { still := hst, accepts := h.accepts, used := h.used, launched := h.launched }
+      · simp only [hc2, Bool.false_eq_true, if_false]
+        refine { still := hst, accepts := ?_, used := ?_, launched := ?_ }
+        · intro a ha
+          rw [List.mem_append] at ha
+          cases ha with
+          | inl ha => exact h.accepts a ha
+          | inr ha =>
+            simp only [List.mem_singleton] at ha; subst ha
+            exact ⟨o, ho, rfl, i2.good, i2.nodup, fun p hp => (i2.fromOffer p hp).1⟩
+        · intro i hi
+          by_cases hu2 : s2.used = true
+          · simp only [hu2, if_true, List.mem_append, List.mem_singleton] at hi
+            cases hi with
+            | inl hi =>
+              obtain ⟨a, ha, rfl⟩ := h.used i hi
+              exact ⟨a, List.mem_append_left _ ha, rfl⟩
+            | inr hi => exact ⟨⟨o.oid, s2.launches⟩, by simp, hi.symm⟩
+          · simp only [hu2, Bool.false_eq_true, if_false] at hi
+            obtain ⟨a, ha, rfl⟩ := h.used i hi
+            exact ⟨a, List.mem_append_left _ ha, rfl⟩
+        · intro a ha hne
+          rw [List.mem_append] at ha
+          cases ha with
+          | inl ha =>
+            have := h.launched a ha hne
+            split
+            · exact List.mem_append_left _ this
+            · exact this
+          | inr ha =>
+            simp only [List.mem_singleton] at ha; subst ha
+            have := u2 hne
+            simp [this]
+
+theorem foldl_handleOffer_inv (m : Mode) (descs : List Desc) (order : List Offer) (pm : List (Nat × Desc))
+    (hpm : ∀ e ∈ pm, e.2 ∈ descs) (hsv : StaticValid m descs)
+    (os : List Offer) (hos : ∀ o ∈ os, o ∈ order ∧ OValid o.res.ports = true)
+    (st : RState) (h : RInv m descs order st) : RInv m descs order (os.foldl (handleOffer m pm) st) := by
+  induction os generalizing st with
+  | nil => exact h
+  | cons o os ih =>
+    simp only [List.foldl_cons]
+    exact ih (fun x hx => hos x (List.mem_cons_of_mem _ hx)) _
+      (handleOffer_inv m descs order pm hpm hsv st o (hos o List.mem_cons_self).1 (hos o List.mem_cons_self).2 h)
+
+/-- Every ACCEPT of a round carries launches that are good for the offer it answers. -/
+theorem round_accepts (m : Mode) (offers : List Offer) (descs : List Desc) (order : List Offer)
+    (hv : ∀ o ∈ order, OValid o.res.ports = true) (hsv : StaticValid m descs) :
+    ∀ a ∈ (round m offers descs order).accepts, ∃ o ∈ order, a.oid = o.oid ∧ PerOffer m o a.launches := by
+  unfold round
+  by_cases hd : descs.isEmpty = true
+  · simp [hd]
+  · simp only [hd, Bool.false_eq_true, if_false]
+    have hp := preprocess_sub offers descs
+    generalize preprocess offers descs = pp at hp
+    obtain ⟨pm, still, und⟩ := pp
+    simp only at hp ⊢
+    by_cases hu : und.isEmpty = true
+    · simp only [hu, Bool.not_true, Bool.false_eq_true, if_false]
+      exact (foldl_handleOffer_inv m descs order pm hp.1 hsv order (fun o ho => ⟨ho, hv o ho⟩) _
+        { still := hp.2, accepts := by simp, used := by simp, launched := by simp }).accepts
+    · simp [hu]
+
+/-- Declines: an offer that is not declined was answered by an ACCEPT, and an
+    ACCEPT that launches something is not also declined. -/
+theorem round_declines (m : Mode) (offers : List Offer) (descs : List Desc) (order : List Offer)
+    (hv : ∀ o ∈ order, OValid o.res.ports = true) (hsv : StaticValid m descs) :
+    let out := round m offers descs order
+    (∀ o ∈ offers, o.oid ∈ out.declined ∨ ∃ a ∈ out.accepts, a.oid = o.oid) ∧
+    (∀ a ∈ out.accepts, a.launches ≠ [] → a.oid ∉ out.declined) := by
+  unfold round
+  by_cases hd : descs.isEmpty = true
+  · simp only [hd, if_true]
+    exact ⟨fun o ho => Or.inl (List.mem_map_of_mem ho), by simp⟩
+  · simp only [hd, Bool.false_eq_true, if_false]
+    have hp := preprocess_sub offers descs
+    generalize preprocess offers descs = pp at hp
+    obtain ⟨pm, still, und⟩ := pp
+    simp only at hp ⊢
+    by_cases hu : und.isEmpty = true
+    · simp only [hu, Bool.not_true, Bool.false_eq_true, if_false]
+      have inv := foldl_handleOffer_inv m descs order pm hp.1 hsv order (fun o ho => ⟨ho, hv o ho⟩)
+        { still := still, und := [], accepts := [], usedIds := [], crashed := false }
+        { still := hp.2, accepts := by simp, used := by simp, launched := by simp }
+      generalize List.foldl (handleOffer m pm) { still := still, und := [], accepts := [], usedIds := [], crashed := false } order = st at inv
+      refine ⟨?_, ?_⟩
+      · intro o ho
+        by_cases hused : o.oid ∈ st.usedIds
+        · exact Or.inr (inv.used _ hused)
+        · left
+          rw [List.mem_filter]
+          refine ⟨List.mem_map_of_mem ho, ?_⟩
+          simp [hused]
+      · intro a ha hne hdecl
+        rw [List.mem_filter] at hdecl
+        have := inv.launched a ha hne
+        simp [this] at hdecl
+    · simp only [hu, Bool.not_false, if_true]
+      exact ⟨fun o ho => Or.inl (List.mem_map_of_mem ho), by simp⟩
+
+
+/-! ## `RangesFromExpression` reads back what a template writes -/
+
+theorem digit_facts : ∀ k : Fin 10, digitVal (Char.ofNat ('0'.toNat + k.val)) = some k.val ∧
+    Char.ofNat ('0'.toNat + k.val) ≠ ',' ∧ Char.ofNat ('0'.toNat + k.val) ≠ '-' ∧
+    isSpace (Char.ofNat ('0'.toNat + k.val)) = false := by
+  decide
+
+/-- a character a number is printed with -/
+def IsDigit (c : Char) : Prop := ∃ k : Fin 10, c = Char.ofNat ('0'.toNat + k.val)
+
+theorem isDigit_mod (n : Nat) : IsDigit (Char.ofNat ('0'.toNat + n % 10)) :=
+  ⟨⟨n % 10, Nat.mod_lt _ (by decide)⟩, rfl⟩
+
+theorem digitVal_mod (n : Nat) : digitVal (Char.ofNat ('0'.toNat + n % 10)) = some (n % 10) :=
+  (digit_facts ⟨n % 10, Nat.mod_lt _ (by decide)⟩).1
+
+theorem digitsAux_acc (fuel n : Nat) (acc : List Char) : digitsAux fuel n acc = digitsAux fuel n [] ++ acc := by
+  induction fuel generalizing n acc with
+  | zero => simp [digitsAux]
+  | succ f ih =>
+    simp only [digitsAux]
+    split
+    · simp
+    · rw [ih (n / 10) (_ :: acc), ih (n / 10) [_]]; simp
+
+theorem parseDigits_snoc (a : Nat) (xs : List Char) (c : Char) :
+    parseDigits a (xs ++ [c]) = match parseDigits a xs with
+      | some v => (digitVal c).map (fun d => v * 10 + d)
+      | none => none := by
+  induction xs generalizing a with
+  | nil =>
+    simp only [List.nil_append, parseDigits]
+    cases digitVal c <;> simp [parseDigits]
+  | cons x xs ih =>
+    simp only [List.cons_append, parseDigits]
+    cases digitVal x with
+    | none => rfl
+    | some d => exact ih _
+
+theorem parseDigits_digitsAux (fuel n : Nat) (h : n < fuel) : parseDigits 0 (digitsAux fuel n []) = some n := by
+  induction fuel generalizing n with
+  | zero => omega
+  | succ f ih =>
+    simp only [digitsAux]
+    split
+    · rename_i hz
+      simp only [parseDigits, digitVal_mod]
+      have : n % 10 = n := Nat.mod_eq_of_lt (by omega)
+      simp [this]
+    · rename_i hz
+      rw [digitsAux_acc, parseDigits_snoc, ih (n / 10) (by omega), digitVal_mod]
+      simp only [Option.map_some]
+      congr 1
+      omega
+
+theorem digitsAux_chars (fuel n : Nat) (acc : List Char) :
+    ∀ c ∈ digitsAux fuel n acc, c ∈ acc ∨ IsDigit c := by
+  induction fuel generalizing n acc with
+  | zero => intro c hc; exact Or.inl hc
+  | succ f ih =>
+    simp only [digitsAux]
+    split
+    · intro c hc
+      simp only [List.mem_cons] at hc
+      cases hc with
+      | inl h => exact Or.inr (h ▸ isDigit_mod n)
+      | inr h => exact Or.inl h
+    · intro c hc
+      cases ih (n / 10) _ c hc with
+      | inl h =>
+        simp only [List.mem_cons] at h
+        cases h with
+        | inl h => exact Or.inr (h ▸ isDigit_mod n)
+        | inr h => exact Or.inl h
+      | inr h => exact Or.inr h
+
+theorem printNat_digits (n : Nat) : ∀ c ∈ printNat n, IsDigit c := by
+  intro c hc
+  cases digitsAux_chars (n + 1) n [] c hc with
+  | inl h => cases h
+  | inr h => exact h
+
+theorem printNat_ne_nil (n : Nat) : printNat n ≠ [] := by
+  unfold printNat
+  simp only [digitsAux]
+  split
+  · simp
+  · rw [digitsAux_acc]; simp
+
+theorem parseUint_printNat (n : Nat) (h : n < 2 ^ 64) : parseUint (printNat n) = some n := by
+  unfold parseUint
+  have hne := printNat_ne_nil n
+  have hp : parseDigits 0 (printNat n) = some n := parseDigits_digitsAux (n + 1) n (by omega)
+  cases hx : printNat n with
+  | nil => exact absurd hx hne
+  | cons c cs =>
+    rw [hx] at hp
+    simp only [hp, h, if_true]
+
+theorem IsDigit.ne_comma {c : Char} (h : IsDigit c) : c ≠ ',' := by
+  obtain ⟨k, rfl⟩ := h; exact (digit_facts k).2.1
+theorem IsDigit.ne_dash {c : Char} (h : IsDigit c) : c ≠ '-' := by
+  obtain ⟨k, rfl⟩ := h; exact (digit_facts k).2.2.1
+theorem IsDigit.not_space {c : Char} (h : IsDigit c) : isSpace c = false := by
+  obtain ⟨k, rfl⟩ := h; exact (digit_facts k).2.2.2
+
+theorem splitOn_ne_nil (sep : Char) (s : List Char) : splitOn sep s ≠ [] := by
+  induction s with
+  | nil => simp [splitOn]
+  | cons c cs ih =>
+    simp only [splitOn]
+    split
+    · simp
+    · cases h : splitOn sep cs with
+      | nil => simp
+      | cons t ts => simp
+
+theorem splitOn_single (sep : Char) (tok : List Char) (h : ∀ c ∈ tok, c ≠ sep) : splitOn sep tok = [tok] := by
+  induction tok with
+  | nil => rfl
+  | cons c cs ih =>
+    have hc : c ≠ sep := h c List.mem_cons_self
+    simp only [splitOn, hc, if_false]
+    rw [ih (fun x hx => h x (List.mem_cons_of_mem _ hx))]
+
+theorem splitOn_append (sep : Char) (tok rest : List Char) (h : ∀ c ∈ tok, c ≠ sep) :
+    splitOn sep (tok ++ sep :: rest) = tok :: splitOn sep rest := by
+  induction tok with
+  | nil => simp [splitOn]
+  | cons c cs ih =>
+    have hc : c ≠ sep := h c List.mem_cons_self
+    simp only [List.cons_append, splitOn, hc, if_false]
+    rw [ih (fun x hx => h x (List.mem_cons_of_mem _ hx))]
+
+theorem trimLeft_id (s : List Char) (h : ∀ c ∈ s, isSpace c = false) : trimLeft s = s := by
+  cases s with
+  | nil => rfl
+  | cons c cs => simp [trimLeft, h c List.mem_cons_self]
+
+theorem trimSpace_id (s : List Char) (h : ∀ c ∈ s, isSpace c = false) : trimSpace s = s := by
+  unfold trimSpace
+  rw [trimLeft_id s h, trimLeft_id s.reverse (fun c hc => h c (List.mem_reverse.mp hc)), List.reverse_reverse]
+
+/-- characters of a printed range: digits and '-' -/
+theorem printRange_chars (r : Range) : ∀ c ∈ printRange r, IsDigit c ∨ c = '-' := by
+  intro c hc
+  unfold printRange at hc
+  split at hc
+  · exact Or.inl (printNat_digits _ c hc)
+  · simp only [List.mem_append, List.mem_cons] at hc
+    rcases hc with h | h | h
+    · exact Or.inl (printNat_digits _ c h)
+    · exact Or.inr h
+    · exact Or.inl (printNat_digits _ c h)
+
+theorem dash_not_space : isSpace '-' = false := by decide
+theorem comma_not_space : isSpace ',' = false := by decide
+
+theorem parseItem_printRange (fixed : Bool) (r : Range) (hf : fixed = true ∨ r.1 = r.2)
+    (h1 : r.1 < 2 ^ 64) (h2 : r.2 < 2 ^ 64) :
+    parseItem fixed (printRange r) = some r := by
+  unfold parseItem
+  have hns : ∀ c ∈ printRange r, isSpace c = false := by
+    intro c hc
+    cases printRange_chars r c hc with
+    | inl h => exact h.not_space
+    | inr h => rw [h]; exact dash_not_space
+  rw [trimSpace_id _ hns]
+  unfold printRange
+  by_cases he : r.1 = r.2
+  · simp only [he, if_true]
+    rw [splitOn_single '-' _ (fun c hc => (printNat_digits _ c hc).ne_dash)]
+    simp only [parseUint_printNat r.2 h2, Option.map_some]
+    congr 1
+    exact Prod.ext he.symm rfl
+  · have hfix : fixed = true := hf.resolve_right he
+    subst hfix
+    simp only [he, if_false]
+    rw [splitOn_append '-' _ _ (fun c hc => (printNat_digits _ c hc).ne_dash),
+      splitOn_single '-' _ (fun c hc => (printNat_digits _ c hc).ne_dash)]
+    simp only [parseUint_printNat r.1 h1, parseUint_printNat r.2 h2, if_true]
+
+theorem printRange_ne_nil (r : Range) : printRange r ≠ [] := by
+  unfold printRange
+  split
+  · exact printNat_ne_nil _
+  · have := printNat_ne_nil r.1
+    cases h : printNat r.1 with
+    | nil => exact absurd h this
+    | cons c cs => simp
+
+theorem parseItems_printRanges (fixed : Bool) (r : Range) (rs : Ranges)
+    (hf : fixed = true ∨ ∀ x ∈ r :: rs, x.1 = x.2)
+    (h : ∀ x ∈ r :: rs, x.1 < 2 ^ 64 ∧ x.2 < 2 ^ 64) :
+    parseItems fixed (splitOn ',' (printRanges (r :: rs))) = some (r :: rs) := by
+  induction rs generalizing r with
+  | nil =>
+    simp only [printRanges]
+    rw [splitOn_single ',' _ (fun c hc => by
+      cases printRange_chars r c hc with
+      | inl h => exact h.ne_comma
+      | inr h => rw [h]; decide)]
+    simp only [parseItems, parseItem_printRange fixed r (hf.imp id (fun h' => h' r List.mem_cons_self))
+      (h r List.mem_cons_self).1 (h r List.mem_cons_self).2, Option.map_some]
+  | cons s rest ih =>
+    simp only [printRanges]
+    rw [splitOn_append ',' _ _ (fun c hc => by
+      cases printRange_chars r c hc with
+      | inl h => exact h.ne_comma
+      | inr h => rw [h]; decide)]
+    simp only [parseItems, parseItem_printRange fixed r (hf.imp id (fun h' => h' r List.mem_cons_self))
+      (h r List.mem_cons_self).1 (h r List.mem_cons_self).2]
+    rw [ih s (hf.imp id (fun h' x hx => h' x (List.mem_cons_of_mem _ hx))) (fun x hx => h x (List.mem_cons_of_mem _ hx))]
+    rfl
+
+theorem printRanges_chars (rs : Ranges) : ∀ c ∈ printRanges rs, isSpace c = false := by
+  induction rs with
+  | nil => intro c hc; cases hc
+  | cons r rest ih =>
+    have hr : ∀ c ∈ printRange r, isSpace c = false := by
+      intro c hc
+      cases printRange_chars r c hc with
+      | inl h => exact h.not_space
+      | inr h => rw [h]; exact dash_not_space
+    cases rest with
+    | nil => exact hr
+    | cons s rest' =>
+      intro c hc
+      simp only [printRanges, List.mem_append, List.mem_cons] at hc
+      rcases hc with h | h | h
+      · exact hr c h
+      · rw [h]; exact comma_not_space
+      · exact ih c h
+
+theorem printRanges_ne_nil (r : Range) (rs : Ranges) : printRanges (r :: rs) ≠ [] := by
+  cases rs with
+  | nil => exact printRange_ne_nil r
+  | cons s rest =>
+    simp only [printRanges]
+    have := printRange_ne_nil r
+    cases h : printRange r with
+    | nil => exact absurd h this
+    | cons c cs => simp
+
+theorem parseRanges_printRanges (fixed : Bool) (rs : Ranges) (hf : fixed = true ∨ ∀ x ∈ rs, x.1 = x.2)
+    (h : ∀ x ∈ rs, x.1 < 2 ^ 64 ∧ x.2 < 2 ^ 64) :
+    parseRanges fixed (printRanges rs) = some rs := by
+  cases rs with
+  | nil => rfl
+  | cons r rest =>
+    unfold parseRanges
+    rw [trimSpace_id _ (printRanges_chars (r :: rest))]
+    have := printRanges_ne_nil r rest
+    cases hx : printRanges (r :: rest) with
+    | nil => exact absurd hx this
+    | cons c cs =>
+      simp only [List.isEmpty_cons, Bool.false_eq_true, if_false]
+      rw [← hx]
+      exact parseItems_printRanges fixed r rest hf h
+
+/-! ## expanding ranges into ports -/
+
+theorem mem_expand (x : Nat) (rs : Ranges) : x ∈ expand rs ↔ mem x rs = true := by
+  unfold expand
+  rw [List.mem_flatMap, mem_iff]
+  constructor
+  · rintro ⟨r, hr, hx⟩
+    rw [List.mem_range'_1] at hx
+    exact ⟨r, hr, by rw [memR_iff]; omega⟩
+  · rintro ⟨r, hr, hx⟩
+    rw [memR_iff] at hx
+    exact ⟨r, hr, by rw [List.mem_range'_1]; omega⟩
+
+theorem expand_canon {lo : Nat} (rs : Ranges) (h : CanonFrom lo rs = true) :
+    (expand rs).Pairwise (· < ·) ∧ ∀ x ∈ expand rs, lo ≤ x := by
+  induction rs generalizing lo with
+  | nil => simp [expand]
+  | cons r rs ih =>
+    simp only [CanonFrom, Bool.and_eq_true, decide_eq_true_eq] at h
+    obtain ⟨p1, p2⟩ := ih h.2
+    have he : expand (r :: rs) = List.range' r.1 (r.2 + 1 - r.1) ++ expand rs := by simp [expand]
+    rw [he]
+    refine ⟨?_, ?_⟩
+    · rw [List.pairwise_append]
+      refine ⟨List.pairwise_lt_range', p1, ?_⟩
+      intro a ha b hb
+      rw [List.mem_range'_1] at ha
+      have := p2 b hb
+      omega
+    · intro x hx
+      rw [List.mem_append] at hx
+      cases hx with
+      | inl hx => rw [List.mem_range'_1] at hx; omega
+      | inr hx => have := p2 x hx; omega
+
+theorem nodupNat_iff (xs : List Nat) : nodupNat xs = true ↔ xs.Nodup := by
+  induction xs with
+  | nil => simp [nodupNat]
+  | cons x xs ih =>
+    simp only [nodupNat, Bool.and_eq_true, Bool.not_eq_true', List.nodup_cons, ih]
+    constructor
+    · rintro ⟨h1, h2⟩
+      refine ⟨?_, h2⟩
+      intro hx
+      rw [List.contains_eq_mem] at h1
+      simp [hx] at h1
+    · rintro ⟨h1, h2⟩
+      refine ⟨?_, h2⟩
+      rw [List.contains_eq_mem]
+      simp [h1]
+
+theorem findOffer_unique (offers : List Offer) (o : Offer) (ho : o ∈ offers)
+    (hu : (offers.map (·.oid)).Nodup) : findOffer offers o.oid = some o := by
+  induction offers with
+  | nil => cases ho
+  | cons x xs ih =>
+    simp only [List.map_cons, List.nodup_cons] at hu
+    unfold findOffer
+    simp only [List.find?]
+    cases ho with
+    | head => simp
+    | tail _ ho' =>
+      have hne : ¬ x.oid = o.oid := by
+        intro heq
+        exact hu.1 (heq ▸ List.mem_map_of_mem ho')
+      simp only [hne, decide_false]
+      exact ih ho' hu.2
+
 end Placement
